@@ -311,8 +311,10 @@ class BuildAssembly(Assembly):
                 # row from an OverlapResult
                 continue
 
+            # Tagged pieces are filed by their tag, whatever their haplotype
+            hap = None if scffld.tag else scffld.haplotype
             build_scffld = hap_name_scaffold.setdefault(
-                (scffld.tag, scffld.haplotype, scffld.name),
+                (scffld.tag, hap, scffld.name),
                 Scaffold(
                     scffld.name,
                     tag=scffld.tag,
